@@ -32,6 +32,18 @@ def _hole(t):
     return None
 
 
+def _rename(tid, aid, env, node):
+    """Locals of the skeleton may be renamed consistently (a bijection); every other name must be identical."""
+    if tid not in env["__locals"]:
+        if tid != aid:
+            raise Unsupported(node, f"skeleton expects the name {tid}")
+        return
+    ren = env["__ren"]
+    if ren.get(tid, aid) != aid or (tid not in ren and aid in ren.values()):
+        raise Unsupported(node, f"inconsistent renaming of the local {tid}")
+    ren[tid] = aid
+
+
 def _uni(t, a, env, where):
     h = _hole(t)
     if h is not None:
@@ -41,6 +53,10 @@ def _uni(t, a, env, where):
         return
     if type(t) is not type(a):
         raise Unsupported(a if isinstance(a, ast.AST) else where, f"skeleton expects {type(t).__name__}")
+    if isinstance(t, ast.Name):
+        return _rename(t.id, a.id, env, a)
+    if isinstance(t, ast.arg):
+        return _rename(t.arg, a.arg, env, a)
     if isinstance(t, ast.Raise):
         # exception class must agree, the message is free
         tc = t.exc.func if isinstance(t.exc, ast.Call) else t.exc
@@ -72,9 +88,27 @@ def _uni(t, a, env, where):
 
 def unify(skeleton_src, node):
     t = ast.parse(skeleton_src).body[0]
-    env = {}
+    local = set()
+    for n in ast.walk(t):
+        if isinstance(n, ast.Name) and isinstance(n.ctx, ast.Store) and not n.id.startswith("HOLE_"):
+            local.add(n.id)
+        elif isinstance(n, ast.arg):
+            local.add(n.arg)
+    env = {"__locals": local, "__ren": {}}
     _uni(t, node, env, node)
+    del env["__locals"]
     return env
+
+
+def actual(env, name):
+    """the name the source uses for the skeleton's local `name`"""
+    return env["__ren"].get(name, name)
+
+
+def no_capture(node, names):
+    for n in ast.walk(node):
+        if isinstance(n, ast.Name) and n.id in names:
+            raise Unsupported(n, "name clashes with a parameter of the generated definition")
 
 
 class SubstSubscript(ast.NodeTransformer):
